@@ -91,6 +91,32 @@ EXTRA3 = {
 for k, v in EXTRA3.items():
     CLAIMS[k] = (CLAIMS[k][0] + v, CLAIMS[k][1])
 
+# rules added after the fourth round of independent breaking changes (wiring, configuration, sibling code)
+EXTRA4 = {
+ "C01": " The configured target database (0 included) is what the configuration's fix leaves for selectDB.",
+ "C02": " The re-keying rules of C17, the (re)connection decision rules of C06 and the transaction-mode wiring of C09.",
+ "C03": " Nil means 'end of the packed structure' only (an empty element is never answered with nil); the key-exists policy is normalised to the three known words.",
+ "C04": " Every replay path of an entry, the 'Bad data format' fallback included, hands the target's error up (shared with C03).",
+ "C05": " The memory snapshot's commit point: a snapshot stays cached when its writer finishes only if every announced byte arrived; the disk scan conditions of C08.",
+ "C06": " A full resynchronisation does not carry the target's old position over to the new replication id; the cache consulted reports only completed snapshots after a restart.",
+ "C07": " The collector never removes the newest entry of a live id (shared with C17); the decoder counts every byte it consumes (shared with C12).",
+ "C08": " No successful open of a segment skips the check unless verification is off; the verification switch handed to the store derives from the configuration through fields that are assigned.",
+ "C09": " The sender's transaction mode is the output's CanTransaction itself.",
+ "C10": " The database rule is asked about the source database; the prefix trie is read with the decomposition it is written with.",
+ "C11": " The slot-tag table behind the bookkeeping keys is read only after its build (sync.Once); every key a command's slot verdict covers is hashed itself.",
+ "C12": " The encoder's pre-formatted integer table is filled over its whole length and read with the same offset.",
+ "C13": " On the bidirectional paths only reads and bookkeeping commands are sent outside a marker-led transaction.",
+ "C14": " What is saved before journal deletion is the rebuilt frontier; a unit's end offset is the end of its last source command (shared with C12).",
+ "C15": " The election identity derives from the advertised peer address; the lease ttl reaches the election in the unit the scripts use; renew <= lease/3 decided on the values held at return.",
+ "C16": " Before talking to the leader the follower discards its copy only when it is behind; the leader's data joins the follower's only at exactly its newest offset; gap truncation and joint test after a restart (shared with C08).",
+ "C17": " The live-id set is complete before anything is collected; the mode marker of an existing namespace says what is there until the migration has run.",
+ "C18": " The slot-tag table is read only after its build.",
+ "C19": " A node's request queue is filled by the submitting goroutine itself (dispatch order).",
+ "C20": " A chunked value is known as such from its first chunk; the policy value the replay paths switch on is one of the three words on every successful path of the configuration's fix.",
+}
+for k, v in EXTRA4.items():
+    CLAIMS[k] = (CLAIMS[k][0] + v, CLAIMS[k][1])
+
 NOT_YET = "check not built yet in this revision (planned, see DESIGN.md section 3)"
 
 def main():
